@@ -701,6 +701,9 @@ func codecPattern(i int) byte { return byte(i*7 + i>>11 + 13) }
 // asynchronous writes hit would-block in the middle of an item and are resumed by the poller (the in-memory transport of
 // the trace mode completes or refuses a write as scripted; here the kernel and the library's own write reactor decide).
 // Every item must arrive intact, in order, exactly once.
+// codecItemStep: item i has size + i*codecItemStep bytes.
+var codecItemStep = 7
+
 func codecRealTransport(seed uint64, items, size int) (ok bool, why string) {
 	runtime.LockOSThread()
 	defer runtime.UnlockOSThread()
@@ -736,7 +739,7 @@ func codecRealTransport(seed uint64, items, size int) (ok bool, why string) {
 		return false, "codecconn"
 	}
 	mk := func(i int) []byte {
-		b := make([]byte, size+i*7)
+		b := make([]byte, size+i*codecItemStep)
 		for j := range b {
 			b[j] = byte((j*31 + i*17 + int(seed)) % 251)
 		}
@@ -840,6 +843,15 @@ func codecDirect(seed uint64, tier string, args []string, w *bufio.Writer) {
 		if ok, why := codecRealTransport(seed, n, size); !ok {
 			fail("real-transport", why)
 		}
+		// long chains of small items, each written from the completion callback of the one before and completing at once: the
+		// chain is cut at the dispatch limit, the item that is parked there goes out like the others (growing / shrinking sizes)
+		for _, c := range [][3]int{{45, 40, 7}, {70, 600, -7}, {33, 10, 9}} {
+			codecItemStep = c[2]
+			if ok, why := codecRealTransport(seed+uint64(c[0]), c[0], c[1]); !ok {
+				fail("real-transport", fmt.Sprintf("chain of %d items (sizes %d%+d per item): %s", c[0], c[1], c[2], why))
+			}
+		}
+		codecItemStep = 7
 	}
 	if tier != "thorough" {
 		fmt.Fprintf(w, "DIRECT-STAT {\"codec_real_transport_items\": 10, \"codec_limit_roundtrip\": \"skipped (thorough tier only)\"}\n")
